@@ -27,6 +27,7 @@ type ftEntry struct {
 }
 
 type c10World struct {
+	rolledBack             int
 	c                      *chain.Chain
 	f                      *chain.Fork
 	accs                   []chain.Account
@@ -357,6 +358,35 @@ func TestC10(t *testing.T) {
 					n.Owner, n.Account = ftOwnerAddr(addr, newAcct), newAcct
 					w.model[ftKey(addr, n.Owner)] = &n
 				}))
+			},
+			// one transaction whose last message fails: everything its earlier messages did (here: the owner granting a
+			// stranger edit access and the stranger's entry appearing) is discarded with it
+			"rolledBackBatch": func(rt *rapid.T) {
+				e := drawEntry(rt)
+				var owner chain.Account
+				for _, a := range w.accs {
+					if hexsha(a.Bech) == e.Account {
+						owner = a
+					}
+				}
+				if owner.Bech == "" {
+					rt.Skip()
+				}
+				stranger := drawAcc(rt, "stranger")
+				grant := fttypes.NewMsgAddEditors(owner.Bech, ftEditorID(e.Tracking, stranger.Bech), "k", e.Address, e.Owner)
+				post := fttypes.NewMsgPostFile(owner.Bech, e.Account, e.Address, hexsha("batch"), "c", "{}", "{}", "tn-batch")
+				failing := fttypes.NewMsgChangeOwner(owner.Bech, hexsha("no such entry"), hexsha("nobody"), hexsha("x"))
+				msgs := []sdk.Msg{grant, failing}
+				if rapid.Bool().Draw(rt, "withPost") {
+					msgs = []sdk.Msg{grant, post, failing}
+				}
+				res := w.f.ExecAtomic(msgs...)
+				w.logf("one transaction by %s: grant %s edit access to %s, then a message that fails -> %s", short(owner.Bech), short(stranger.Bech), abbrev(e.Address), res)
+				if res.OK() {
+					fail("C10/harness", "the batch was meant to fail")
+				}
+				w.rolledBack++
+				fail(w.compare("a transaction that was rolled back"))
 			},
 			"acl": func(rt *rapid.T) {
 				e := drawEntry(rt)
